@@ -4,6 +4,8 @@
    ok_ryw        "each load returns exactly the last value stored under that search/job/key":
                  one pass over an observed history (operation, output) with a SHADOW = the simple map
                  location -> last value successfully stored there; every load is checked against it
+   ok_exist      "what was created stays": an operation on a job / search whose id was handed out earlier in the
+                 history does not answer KeyError
    ok_C13        several clients at once: identifiers unique over all clients, every client (that only touches the
                  jobs it created itself - checked) reads its own writes, the final dump of the storage (appended by
                  the harness to every client's history as load_search events) still holds every client's last
